@@ -281,6 +281,43 @@ func checkGuarded(c *Ctx, spec guardSpec) {
 	}
 	dispatch := implementersMethods(c, spec.pkg, spec.ifaces)
 	needs := map[*ssa.Function]string{}
+	// via[fn]: when every unprotected access of fn goes through objects it received as parameters, the indices of
+	// those parameters (a caller that passes its own private, not yet shared object does not need the lock);
+	// absent = the need is unconditional
+	via := map[*ssa.Function]map[int]bool{}
+	paramIndex := func(fn *ssa.Function, v ssa.Value) int {
+		for i, p := range fn.Params {
+			if v == p {
+				return i
+			}
+		}
+		return -1
+	}
+	// addNeed merges a need into fn; idx<0 = unconditional. Reports whether anything changed.
+	addNeed := func(fn *ssa.Function, reason string, idx int) bool {
+		_, had := needs[fn]
+		if !had {
+			needs[fn] = reason
+			if idx >= 0 {
+				via[fn] = map[int]bool{idx: true}
+			}
+			return true
+		}
+		v, cond := via[fn]
+		if !cond {
+			return false
+		}
+		if idx < 0 {
+			delete(via, fn)
+			needs[fn] = reason
+			return true
+		}
+		if !v[idx] {
+			v[idx] = true
+			return true
+		}
+		return false
+	}
 	nAccess := 0
 	// direct accesses
 	for _, fn := range fns {
@@ -295,13 +332,11 @@ func checkGuarded(c *Ctx, spec guardSpec) {
 				}
 				nAccess++
 				if !held[in] {
-					if _, already := needs[fn]; !already {
-						kind := "reads"
-						if w {
-							kind = "writes"
-						}
-						needs[fn] = fmt.Sprintf("%s %s at %s without holding %s", kind, what, c.P.Pos(in.Pos()), spec.lock)
+					kind := "reads"
+					if w {
+						kind = "writes"
 					}
+					addNeed(fn, fmt.Sprintf("%s %s at %s without holding %s", kind, what, c.P.Pos(in.Pos()), spec.lock), paramIndex(fn, in.(*ssa.FieldAddr).X))
 				}
 			}
 		}
@@ -330,7 +365,9 @@ func checkGuarded(c *Ctx, spec guardSpec) {
 		changed = false
 		for _, fn := range fns {
 			if _, n := needs[fn]; n {
-				continue
+				if _, cond := via[fn]; !cond {
+					continue
+				}
 			}
 			for _, b := range fn.Blocks {
 				for _, in := range b.Instrs {
@@ -338,9 +375,34 @@ func checkGuarded(c *Ctx, spec guardSpec) {
 						continue
 					}
 					for _, cal := range calleesOf(in) {
-						if r, n := needs[cal]; n && c.P.InScope[cal] {
-							if _, already := needs[fn]; !already {
-								needs[fn] = fmt.Sprintf("calls %s at %s without holding %s (which %s)", c.fn(cal), c.P.Pos(in.Pos()), spec.lock, r)
+						r, n := needs[cal]
+						if !n || !c.P.InScope[cal] {
+							continue
+						}
+						reason := fmt.Sprintf("calls %s at %s without holding %s (which %s)", c.fn(cal), c.P.Pos(in.Pos()), spec.lock, r)
+						cv, cond := via[cal]
+						if !cond {
+							if addNeed(fn, reason, -1) {
+								changed = true
+							}
+							continue
+						}
+						cc := in.(ssa.CallInstruction).Common()
+						args := cc.Args
+						if cc.IsInvoke() {
+							args = append([]ssa.Value{cc.Value}, cc.Args...)
+						}
+						for i := range cv {
+							if i >= len(args) {
+								if addNeed(fn, reason, -1) {
+									changed = true
+								}
+								continue
+							}
+							if isPrivateBase(args[i]) {
+								continue // the object is the caller's own, not shared yet
+							}
+							if addNeed(fn, reason, paramIndex(fn, args[i])) {
 								changed = true
 							}
 						}
@@ -736,7 +798,67 @@ func c14SpawnShared(c *Ctx) {
 						cl, _ = x.Call.Args[1].(*ssa.MakeClosure)
 					}
 				}
+				if cl != nil && c.P.TargetOf(cl.Fn.(*ssa.Function)) != origin(cl.Fn.(*ssa.Function)) {
+					cl = nil // bound method value: handled below with go x.m(...)
+				}
 				if cl == nil {
+					// go x.m(...) / go f(...) / AfterFunc(d, x.m): what is shared are the structs the spawner built and
+					// handed over by pointer; their plain fields must not be written by either side afterwards
+					var target *ssa.Function
+					var handed []ssa.Value
+					switch x := in.(type) {
+					case *ssa.Go:
+						if f, isF := x.Call.Value.(*ssa.Function); isF {
+							target, handed = origin(f), x.Call.Args
+						}
+					case *ssa.Call:
+						if cal := calleeOf(&x.Call); cal != nil && qualName(cal) == "time.AfterFunc" && len(x.Call.Args) == 2 {
+							if mc, isMC := x.Call.Args[1].(*ssa.MakeClosure); isMC {
+								cl = mc
+							}
+						}
+					}
+					if cl != nil {
+						target, handed = c.P.TargetOf(cl.Fn.(*ssa.Function)), cl.Bindings
+					}
+					if target == nil || !c.P.InScope[target] {
+						continue
+					}
+					n++
+					for i, a := range handed {
+						al, isAlloc := a.(*ssa.Alloc)
+						if !isAlloc || i >= len(target.Params) {
+							continue
+						}
+						var where ssa.Instruction
+						var fname string
+						check := func(base ssa.Value, after ssa.Instruction) {
+							for _, ref := range *base.Referrers() {
+								fa, isFA := ref.(*ssa.FieldAddr)
+								if !isFA || fa.X != base {
+									continue
+								}
+								ft := fa.Type().(*types.Pointer).Elem()
+								if isSyncType(ft) {
+									continue
+								}
+								for _, r2 := range *fa.Referrers() {
+									if st, isSt := r2.(*ssa.Store); isSt && st.Addr == fa && (after == nil || reachableAfter(after, st)) {
+										where = st
+										if fr, okf := fieldRefOf(fa.X.Type(), fa.Field); okf {
+											fname = fr.Field
+										}
+									}
+								}
+							}
+						}
+						check(al, in)
+						check(target.Params[i], nil)
+						if where != nil {
+							ok = false
+							c.Fail(c.fn(fn)+"#handed:"+al.Comment+"."+fname, c.P.Pos(where.Pos()), fmt.Sprintf("field %q of the struct handed to the spawned %s is written after the spawn without synchronisation (it is neither an atomic nor a channel)", fname, c.fn(target)), "")
+						}
+					}
 					continue
 				}
 				n++
@@ -860,17 +982,37 @@ func c14Confinement(c *Ctx) {
 			}
 		}
 		visit(ap, false)
+		if !spawns {
+			// the same question asked of the evaluated closure: does anything it starts with `go` (closure or method)
+			// call the inner function it was given, wherever that was stored in between?
+			ee := c.NewExecEval(info, EvalConfig{})
+			paths, innerFn, _ := ee.RunApply()
+			for _, p := range paths {
+				for _, g := range eventsWhere(p, func(e *Event) bool { return e.Kind == EvGo && e.Snap != nil }) {
+					if ee.Ev.EventFn(g) == nil {
+						continue
+					}
+					for _, q := range ee.Ev.RunEvent(g.Snap, g, nil) {
+						for _, e := range q.Events()[q.Base:] {
+							if isDynCall(e, innerFn) {
+								spawns = true
+							}
+						}
+					}
+				}
+				if spawns {
+					break
+				}
+			}
+		}
 		if spawns {
 			spawners = append(spawners, pkg)
 		}
 		// unsynchronised mutable executor fields
-		for _, f := range c.P.structFields(pkg, info.Named.Obj().Name()) {
-			if f.Embedded() {
-				continue
-			}
-			ws := ix.Writers(FieldRef{Type: info.Named.Obj().Name(), Pkg: pkg, Field: f.Name()})
+		for _, fr := range execStateFields(c.P, pkg, info.Named) {
+			ws := ix.Writers(fr)
 			for _, w := range ws {
-				if w.Name() != "ToExecutor" {
+				if !ix.Within(w, func(f *ssa.Function) bool { return f.Name() == "ToExecutor" }) {
 					if len(stateful) == 0 || stateful[len(stateful)-1] != pkg {
 						stateful = append(stateful, pkg)
 					}
@@ -1127,6 +1269,7 @@ func c14LiveReads(c *Ctx) {
 	}
 	n := 0
 	ok := true
+	ix := BuildIndex(c.P)
 	for _, fn := range c.P.Funcs {
 		for _, b := range fn.Blocks {
 			for _, in := range b.Instrs {
@@ -1152,6 +1295,17 @@ func c14LiveReads(c *Ctx) {
 				n++
 				key := c.fn(fn) + "#" + name
 				if _, okr := reviewed[key]; okr {
+					continue
+				}
+				// a helper reachable only from a reviewed function (the reviewed argument still applies: the wait rule
+				// C05.wait checks that the read follows the receive from Canceled())
+				inReviewed := false
+				for rk := range reviewed {
+					if strings.HasSuffix(rk, "#"+name) && ix.WithinNames(fn, strings.TrimSuffix(rk, "#"+name)) {
+						inReviewed = true
+					}
+				}
+				if inReviewed {
 					continue
 				}
 				ok = false
